@@ -79,6 +79,7 @@ def main():
     log["suite_with_change"] = {"passed": p, "failed": f, "exit": rc}
     valid = ok_clean and (not ok_patched) and f == 0 and rc == 0 and p >= 45
     log["confirmed"] = valid
+    shutil.rmtree(f"{OUT}/replays", ignore_errors=True)
     res = run_checks()
     log["checks"] = res
     caught = [k for k, v in res.items() if isinstance(v, dict) and v.get("exit") == 1]
@@ -97,6 +98,10 @@ def main():
                      "quick_checks_run_against_it": {k: v for k, v in res.items()} if isinstance(res, dict) else res,
                      "caught_by": caught})
         json.dump(meta, open(f"{d}/meta.json", "w"), indent=1)
+        # the shrunk cases with which the checks caught it (candidates for the regression replay tier)
+        if os.path.isdir(f"{OUT}/replays"):
+            shutil.rmtree(f"{d}/replays", ignore_errors=True)
+            shutil.copytree(f"{OUT}/replays", f"{d}/replays")
     print(f"{sid}: confirmed={valid} caught_by={caught} infra={infra} suite={log['suite_with_change']} demo_clean={ok_clean} demo_patched_fails={not ok_patched}")
     for k in caught:
         print("   ", k, res[k]["signatures"][:2])
